@@ -19,7 +19,8 @@ View(e) == [ost |-> e.pre.ost,
             pools |-> [k \in 1..Len(e.pre.pools) |->
                          [acpu |-> e.pre.pools[k].acpu, aram |-> e.pre.pools[k].aram,
                           active |-> [j \in 1..Len(e.pre.pools[k].active) |->
-                                        [cid |-> e.pre.pools[k].active[j].cid, prio |-> e.pre.pools[k].active[j].prio, can |-> e.pre.pools[k].active[j].can]]]]]
+                                        [cid |-> e.pre.pools[k].active[j].cid, prio |-> e.pre.pools[k].active[j].prio, can |-> e.pre.pools[k].active[j].can,
+                                         ops |-> e.pre.pools[k].active[j].ops]]]]]
 RoundOf(e) == [new |-> e.new, results |-> e.results, sus |-> e.sus, asg |-> e.asg]
 Brief(e) == <<"sus", e.sus, "asg", e.asg>>
 
